@@ -16,10 +16,13 @@ import (
 //
 // Columns 2..7 are ISO 646 IRV-1983 (so 2/4 is the currency sign, the dollar lives at A/4), columns
 // A..B and D..F are the ISO 6937/2 supplementary set, column C holds the 13 non-spacing diacritics.
-// Positions left empty by Tech 3264: 7/15, A/6, A/8, C/0, C/9, C/12, D/8..D/11, E/5.
+// Positions not used here: 7/15, C/0, C/9, C/12, D/8..D/11, E/5. A/6 and A/8 are the unambiguous positions
+// of the number sign and the currency sign in ISO 6937/2 (duplicates of 2/3 and 2/4): the decoder accepts
+// them, the encoder never sends them (Codes() does not list them).
 // ---------------------------------------------------------------------------------------------
 
 var latin [256]rune
+var decodeOnly = map[byte]rune{0xA6: '#', 0xA8: 0x00A4}
 var diacritic = map[byte]rune{}
 var revLatin = map[rune]byte{}
 var revDiacritic = map[rune]byte{}
@@ -129,18 +132,18 @@ type Block struct {
 }
 
 type GSI struct {
-	CPN                               string // code page number, 3 characters
-	FPS                               int    // 25 | 30 (DFC STL25.01 | STL30.01)
-	DSC                               string // " " | "0" | "1" | "2"
-	LC                                string // language code, 2 hex characters
+	CPN                              string // code page number, 3 characters
+	FPS                              int    // 25 | 30 (DFC STL25.01 | STL30.01)
+	DSC                              string // " " | "0" | "1" | "2"
+	LC                               string // language code, 2 hex characters
 	OPT, OET, TPT, TET, TN, TCD, SLR string
-	CD, RD                            string // YYMMDD
-	RN, MNC, MNR                      int
-	TCS                               string
-	TCP                               TC
-	TND, DSN                          int
-	CO, PUB, EN, ECD                  string
-	UDA                               string
+	CD, RD                           string // YYMMDD
+	RN, MNC, MNR                     int
+	TCS                              string
+	TCP                              TC
+	TND, DSN                         int
+	CO, PUB, EN, ECD                 string
+	UDA                              string
 }
 
 type Doc struct {
@@ -599,6 +602,9 @@ func DecodeRow(b []byte, teletext bool, n *Notes) Row {
 				continue
 			}
 			r := latin[c]
+			if r == 0 {
+				r = decodeOnly[c]
+			}
 			if r == 0 {
 				n.Unassigned = append(n.Unassigned, c)
 				r = 0xFFFD
